@@ -85,7 +85,8 @@ def check_circuit(params):
         bad("value", "eval() differs from the ordered product of the gates' standard matrices")
         return out
     from discopy.quantum import gates
-    if not any(isinstance(b, (gates.Ket, gates.Bra, gates.Scalar)) for b in d.boxes) and len(d):
+    user_defined = any(type(b) is gates.QuantumGate and b._name not in qref.TKET for b in d.boxes)
+    if not any(isinstance(b, (gates.Ket, gates.Bra, gates.Scalar)) for b in d.boxes) and len(d) and not user_defined:
         if not qref.close(got @ got.conj().T, np.eye(got.shape[0])):
             bad("not-unitary", "evaluation of a circuit of unitary gates is not unitary")
     try:
@@ -147,7 +148,7 @@ def _worker(shard):
         part.seen("nontrivial", repr(sorted((k, repr(v)) for k, v in params.items())))
         for s_, msg in res:
             part.violation(s_, msg, case, params)
-        if case == "circuit" and len(part.samples) < 1 and len(params["recipe"][2]) == 2:
+        if case == "circuit" and len(part.samples) < 1 and params["recipe"][0] != "zoo" and len(params["recipe"][2]) == 2:
             part.sample(params)
     return part
 
@@ -177,6 +178,21 @@ def run(ctx):
         uni = [r for r in uni if len(r[2]) <= 2] + [r for r in uni if len(r[2]) == 3][::4]
         ctx.cap_hit("depth-3 circuits enumerated with stride 4 (depth <= 2 complete)")
     items += [("circuit", dict(recipe=r)) for r in uni]
+    # the box zoo: every pure box constructor x flag variant and the pure composite subclasses
+    from mc import zoo
+    nz = 0
+    for e in zoo.entries("circuit"):
+        v = zoo.value("circuit", e)
+        if not hasattr(v, 'is_mixed') or v.is_mixed or v.free_symbols or any(o.name != "qubit" for t in (v.dom, v.cod) for o in t.objects) \
+                or any(type(b).__name__ in ("Box", "Bubble") or not hasattr(b, "name") for b in v.boxes):
+            continue
+        try:
+            qref.pure_ref(build.build(("zoo", "circuit", e)))
+        except KeyError:
+            continue      # not a pure quantum box (empty Bits, ...): C12's business
+        items.append(("circuit", dict(recipe=("zoo", "circuit", e))))
+        nz += 1
+    ctx.note("sizes", "%d pure zoo entries" % nz)
     nmax = 4 if ctx.quick else 5
     for e in ("CX", "CZ", "SWAP", "CRz(0.3)", "CRx(-0.7)", "CU1(0.25)", "Controlled(S)"):
         for n in range(2, nmax + 1):
